@@ -84,6 +84,9 @@ Inductive wop :=
                                         0 = before Monitor (sees the replay), 1 = after it (sees
                                         nothing), 2 = after it, then called once (discovBuilder) *)
 | WLeave (i : nat)
+| WNoStream                          (* the executor's watchdog: etcd is reachable, the key is monitored, but the
+                                        watcher has NO live watch stream and no goroutine of the cluster is loading
+                                        or setting one up - the expected load / watch was never issued *)
 | WObs (n : nat) (lag : bool) (rv : list (Z * Z)) (cs : list cobs).
 Definition wthread := (list bev * list wop)%type.
 
@@ -213,6 +216,7 @@ Fixpoint agrees_thread (s : sys) (acc : list (list (list Z))) (lastev : option e
     agrees_thread s acc' lastev l
   | WLeave i :: l =>
     agrees_thread (mkSys (rvals s) (remove_nth i (conts s))) (remove_nth i acc) lastev l
+  | WNoStream :: l => agrees_thread s acc lastev l
   | WObs _ _ rv cs :: l =>
     pairs_eqb (sort_pairs (rvals s)) rv &&
     Nat.eqb (length (conts s)) (length acc) &&
@@ -382,6 +386,7 @@ Fixpoint prop_thread (h : list bev) (t : amap Z) (tr : list ctrack) (prev : list
                                 end else prev in
     prop_thread h t tr prev' l
   | WLeave i :: l => prop_thread h t (remove_nth i tr) (remove_nth i prev) l
+  | WNoStream :: _ => false    (* a monitored key that is not watched: no later registration can reach its subscribers *)
   | WObs n lag rv cs :: l =>
     pairs_eqb (sort_pairs t) rv &&
     (lag || amap_eqb t (etcd_state h n)) &&
@@ -454,6 +459,7 @@ Fixpoint mo_thread (s : sys) (acc : list (list (list Z))) (ops : list wop) : lis
                                              else [sort_z (c_values (last (conts s) (new_container false)))]]
                  end) l
   | WLeave i :: l => mo_thread (mkSys (rvals s) (remove_nth i (conts s))) (remove_nth i acc) l
+  | WNoStream :: l => mo_thread s acc l
   | WObs _ _ _ _ :: l =>
     (sort_pairs (rvals s), combine (map (fun c => sort_z (c_values c)) (conts s)) acc)
     :: mo_thread s (map (fun _ => []) acc) l
